@@ -237,3 +237,72 @@ eng_conf(void)
         cov_count("jobs_checked", B.checked);
         return 0;
 }
+
+/* Engine "bounds" (C07): systematic placement sweep. Every suite of the three families x every
+ * message length 0/1..272 and the 512/4096/65534 neighbourhoods x {end-flush, start-flush}, as single
+ * jobs and as co-scheduled batches (5 and 17 jobs of neighbouring lengths, each in its own arenas).
+ * M-GUARD (faults, canaries, source snapshot) is the oracle; outputs are also compared with the
+ * reference so that in-place and out-of-place runs are both pinned to the same expected bytes. */
+int
+eng_bounds(void)
+{
+        static const long extra[] = { 511, 512, 513, 1023, 1024, 1025, 4095, 4096, 4097, 8191, 16384, 65519, 65520, 65533, 65534 };
+        const struct suite *tabs[3] = { g_cipher_suites, g_hash_suites, g_aead_suites };
+        const int ntabs[3] = { g_n_cipher_suites, g_n_hash_suites, g_n_aead_suites };
+        guard_init(BATCH_MAX);
+        for (int i = 0; i < BATCH_MAX; i++)
+                B.it[i] = item_new();
+        B.prop = "C07";
+        long unit = 0;
+        int maxlen = g_opt.tier ? 272 : 140;
+        for (int vi = 0; vi < g_nvariants; vi++) {
+                int cfg = g_variant_cfg[vi];
+                if (g_opt.cfg_only >= 0 && cfg != g_opt.cfg_only)
+                        continue;
+                struct mmgr *mm = mm_new(cfg);
+                if (!mm)
+                        continue;
+                for (int fam = 0; fam < 3; fam++)
+                        for (int si = 0; si < ntabs[fam]; si++, unit++) {
+                                if (unit % g_opt.nshards != g_opt.shard)
+                                        continue;
+                                const struct suite *s = &tabs[fam][si];
+                                struct rng ur;
+                                rng_seed(&ur, g_opt.seed * 60013 + (uint64_t) unit);
+                                g_case_no = unit;
+                                int nl = maxlen + 1 + (int) ARRAY_SZ(extra);
+                                for (int li = 0; li < nl; li++) {
+                                        long len = li <= maxlen ? li : extra[li - maxlen - 1];
+                                        if (!g_opt.tier && len > 5000 && (li + vi) % 3)
+                                                continue;
+                                        for (int pl = 0; pl < 2; pl++) {
+                                                int nb = (li % 7 == 3) ? 17 : (li % 5 == 1) ? 5 : 1;
+                                                if (len > 5000)
+                                                        nb = 1;
+                                                B.n = nb;
+                                                for (int i = 0; i < nb; i++) {
+                                                        struct genopt g;
+                                                        genopt_default(&g);
+                                                        g.slot = i;
+                                                        g.pl = pl ? PL_START : PL_END;
+                                                        g.len = len + i;
+                                                        g.inplace = (li + i + pl) & 1;
+                                                        g.off = (li >> 1) & 3;
+                                                        if (fam == 1)
+                                                                item_gen(B.it[i], NULL, s, &ur, &g, mm);
+                                                        else
+                                                                item_gen(B.it[i], s, NULL, &ur, &g, mm);
+                                                        item_expect(B.it[i]);
+                                                }
+                                                mm = run_batch(mm, &ur, cfg);
+                                                if (!mm)
+                                                        harness_fail("cannot re-create manager");
+                                                cov_count("guarded_jobs", (uint64_t) nb);
+                                        }
+                                }
+                        }
+                mm_free(mm);
+        }
+        cov_count("jobs_checked", B.checked);
+        return 0;
+}
